@@ -43,6 +43,141 @@ def run_esolver(exe, args, cwd):
         return "timeout", ""
 
 
+def part_option_model(ck, exe, d, files, lib, truth, M):
+    """tie of IO/Esolver.v (option parsing, format choice by -L / extension, first line of the solution file, basis file, exit code)
+    to the real program: the same text offered under many file names x argument lists; the extracted model is given what the
+    library does with each file name in each format (measured through the harness) and the certified status of the LP"""
+    rng = ck.rng
+    STAT = {"optimal": 1, "infeasible": 2, "unbounded": 3}
+    od = os.path.join(d, "opt")
+    os.makedirs(os.path.join(od, "d.lp"), exist_ok=True)
+    bases = []
+    seen = set()
+    for want in ("LP", "MPS"):
+        for k, (fn, fmt, needL) in enumerate(files):
+            if fmt == want and k in lib and k in truth and not fn.endswith((".gz", ".bz2")) and fn != "big.lp" and (want, truth[k][0]) not in seen:
+                seen.add((want, truth[k][0]))
+                bases.append(k)
+    named = []          # (name, base k, content format)
+    for bi, k in enumerate(bases):
+        raw = open(os.path.join(d, files[k][0]), "rb").read()
+        fmt = files[k][1]
+        if fmt == "LP":
+            names = ["n%d.lp", "n%d.LP", "n%d.Lp", "n%d.b.lp", "n%d.lp.x", "n%d.txt", "n%d", "n%d..lp", "n%d.lp.", "n%d.mps", "d.lp/n%d", "n %d.lp",
+                     "n%d.lp.gz", "n%d.lp.bz2", "n%d.gz", "n%d.lp.GZ", "a." * 100 + "d%d/" + "a." * 40 + "lp", "n%d.lp.gz.gz"]
+        else:
+            names = ["m%d.mps", "m%d.txt", "m%d.lp", "m%d.MPS.gz", "m%d"]
+        if bi > 1 and not ck.thorough():
+            names = names[:4]
+        for nm in names:
+            nm = nm % bi
+            data = raw
+            if nm.endswith(".gz.gz"):
+                data = gzip.compress(gzip.compress(raw))
+            elif nm.endswith(".gz"):
+                data = gzip.compress(raw)
+            elif nm.endswith(".bz2"):
+                data = bz2.compress(raw)
+            os.makedirs(os.path.dirname(os.path.join(od, nm)), exist_ok=True)
+            open(os.path.join(od, nm), "wb").write(data)
+            named.append((nm, k, fmt))
+    open(os.path.join(od, "lp"), "wb").write(open(os.path.join(d, files[bases[0]][0]), "rb").read() if bases else b"")
+    if bases:
+        named.append(("lp", bases[0], files[bases[0]][1]))
+    # what mpq_QSread_prob does with each name in each format
+    sc = []
+    for i, (nm, k, fmt) in enumerate(named):
+        pn = nm
+        if " " in nm:       # the harness splits its script at blanks: probe a copy under a name without the blank (same content, same suffix)
+            pn = nm.replace(" ", "_")
+            shutil.copyfile(os.path.join(od, nm), os.path.join(od, pn))
+        sc.append("CASE o%d\nREADP h0 %s LP\nREADP h1 %s MPS\n" % (i, pn, pn))
+    rc, out, err = run_io("".join(sc), scratch=od, timeout=600)
+    Mx, cs = split_cases(out)
+    reads = {}
+    for i, (nm, k, fmt) in enumerate(named):
+        rp = [o[0] for o in split_ops(cs.get("o%d" % i, [])) if o[0][0] == "READP"]
+        if len(rp) == 2:
+            reads[nm] = (rp[0][1] == "OK", rp[1][1] == "OK")
+    POOL = [[], ["-L"], ["-O", "@S"], ["-L", "-O", "@S"], ["-O@S"], ["-SL", "-O", "@S"], ["-S", "-p", "2", "-O", "@S"], ["-p4", "-O", "@S"], ["-d", "9", "-O", "@S"],
+            ["-p", "9", "-O", "@S"], ["-d", "1"], ["-p", "x"], ["-b", "@B"], ["-b", "@B", "-O", "@S"], ["-L", "-b@B", "-O@S"], ["-E"], ["-I"], ["-h"], ["-x"], ["--"], ["-"],
+            ["-v"], ["-O"], ["-B", "nosuch.bas", "-O", "@S"], ["-LSv", "-O", "@S"], ["-P", "64", "-O", "@S"], ["-d7", "-p3", "-O", "@S"], ["-:"], ["-Lx"], ["-O", "@S", "-O", "@T"]]
+    runs = []
+    for i, (nm, k, fmt) in enumerate(named):
+        if nm not in reads:
+            continue
+        pick = [POOL[0], POOL[2], POOL[3]] + rng.sample(POOL, 4 if not ck.thorough() else 12)
+        for j, o in enumerate(pick):
+            a = [x.replace("@S", "s%d_%d.sol" % (i, j)).replace("@T", "t%d_%d.sol" % (i, j)).replace("@B", "b%d_%d.bas" % (i, j)) for x in o]
+            shape = rng.choice(["opts-file"] * 8 + ["file-opts", "two-files", "no-file", "dashdash"])
+            if shape == "opts-file":
+                av = a + [nm]
+            elif shape == "file-opts":
+                av = [nm] + a
+            elif shape == "two-files":
+                av = a + [nm, nm]
+            elif shape == "dashdash":
+                av = a + ["--", nm]
+            else:
+                av = a
+            runs.append(dict(nm=nm, k=k, av=av))
+    for av in ([], ["-v"], ["."], [".."], [""], [" x.lp"], ["-L", "."], ["-O", "z.sol", "...."]):
+        runs.append(dict(nm=None, k=None, av=av))
+    with ThreadPoolExecutor(max_workers=12) as ex:
+        res = list(ex.map(lambda r: run_esolver(exe, r["av"], od), runs))
+    q = ["M " + M]
+    for i, r in enumerate(runs):
+        rl, rm = reads.get(r["nm"], (False, False)) if r["nm"] else (False, False)
+        st = STAT[truth[r["k"]][0]] if r["k"] is not None else 1
+        q.append("Q e%d esolver %d %d 1 0 %d 0 0 %s" % (i, 1 if rl else 0, 1 if rm else 0, st, " ".join(enc(a) for a in r["av"])))
+    ans = run_model_par("drv_io", q)
+    hist, bad, nfault = {}, [], 0
+    for i, (r, (rc_, er)) in enumerate(zip(runs, res)):
+        a = ans.get("e%d" % i)
+        cmd = "esolver " + " ".join(repr(x) if (" " in x or x == "") else x for x in r["av"])
+        ck.count(("opt", tuple(r["av"])))
+        if a is None:
+            bad.append((cmd, "model gave no answer", rc_))
+            continue
+        hist[a[0]] = hist.get(a[0], 0) + 1
+        crashed = rc_ == "timeout" or (isinstance(rc_, int) and rc_ < 0)
+        if a[0] == "FAULT":
+            nfault += 1
+            if crashed:
+                ck.violation("ftype_%d.txt" % i, "# command (cwd holds no special file): %s\n# exit: %s\n" % (cmd, rc_),
+                             "%s ends with signal %s: get_ftype reads argv[-1] for a file name without any token (IO/Esolver.get_ftype = FFault)" % (cmd, rc_),
+                             match=dict(kind="esolver-ftype-no-token"))
+            elif rc_ == 0:
+                bad.append((cmd, a, rc_))
+            continue
+        if crashed:
+            bad.append((cmd, a, rc_))
+            continue
+        if a[0] == "USAGE":
+            ok = rc_ == 1
+        elif a[0] == "VERSION":
+            ok = rc_ == 0
+        else:
+            _, ft, ex_, line, bas, sol, wb = a
+            want_rc = int(ex_)
+            ok = (rc_ == want_rc) if "nosuch.bas" not in r["av"] else ((rc_ == 0) == (want_rc == 0))
+            if sol != "-":
+                text = read_sol(os.path.join(od, dec(sol)))
+                got = text.split("\n")[0] if text else None
+                ok = ok and (got == (dec(line) if line != "-" else None))
+            if wb != "-":
+                ok = ok and (os.path.exists(os.path.join(od, dec(wb))) and os.path.getsize(os.path.join(od, dec(wb))) > 0) == (bas == "1")
+        if not ok:
+            bad.append((cmd, a, rc_))
+    ck.cov["option_model_correspondence"] = dict(runs=len(runs), file_names=len(named), model_outcomes=hist, no_token_names=nfault, disagreements=len(bad),
+                                                 note="exit code, first line of the solution file (or its absence), existence of the -b basis file compared with "
+                                                      "the extracted IO/Esolver.esolver given what mpq_QSread_prob does with the file name in each format and the certified status")
+    for (cmd, a, rc_) in bad[:3]:
+        ck.violation("optmodel.txt", "# command: %s\n# real exit: %s\n# model: %s\n" % (cmd, rc_, a),
+                     "esolver and its model IO/Esolver.v disagree on %s: real exit %s, model %s" % (cmd, rc_, a), no_input=True, match=dict(kind="corr-esolver"))
+    return len(runs)
+
+
 def main():
     ck = Check("C19", "exploration")
     b = build_repo()
@@ -148,6 +283,8 @@ def main():
             q.append("Q t%d ray inf\n%s\nZ %s\nD %s" % (k, it, " ".join(map(RS.qstr, r[1])), " ".join(map(RS.qstr, r[2]))))
     tans = run_model("drv_solve", "\n".join(q) + "\n")
     truth = {k: (r[0], r[3] if r[0] == "optimal" else None) for k, r in refs.items() if r[0] in TRUTH_NAME and tans.get("t%d" % k) == ["true"]}
+    # ---- the option / format / exit-code model against the real program
+    part_option_model(ck, exe, d, files, lib, truth, M)
     # ---- run the binary over files x options
     runs = []
     OPTS = [[], ["-p", "1"], ["-p", "2"], ["-p", "3"], ["-p", "4"], ["-d", "6"], ["-d", "7"], ["-d", "9"], ["-d", "8"], ["-S"], ["-P", "64"], ["-P", "256"], ["-S", "-d", "7", "-P", "192"]]
@@ -373,8 +510,13 @@ def main():
                       "afterwards: exit status 0; first line of the solution file = truth (Python reference simplex, certificate accepted by the extracted "
                       "checkers); for OPTIMAL every line parsed by the extracted Sol.parse_line, names known, no zero values, Value = optimum, reduced costs = "
                       "c - A^T pi, (x, slack, pi, value) accepted by check_kkt on the internal form dumped from the same file; -b basis read back and accepted by "
-                      "QSexact_basis_optimalstatus; unreadable/malformed files: non-zero exit without signal; non-trivial = every run; distinct by file + options")
-    ck.cov["not_covered"] = "option parsing / get_ftype / exit code are explored, not modelled; -R, -m, -v, -E, -I are not exercised"
+                      "QSexact_basis_optimalstatus; unreadable/malformed files: non-zero exit without signal; non-trivial = every run; distinct by file + options"
+                      "; option model: the same LP / MPS text under ~20 file names (extensions lp LP Lp, double extensions, .gz .bz2 .GZ, no extension, a directory with a dot, a blank "
+                      "in the name, 130 dots) x argument lists from a pool of 30 option sets (bundled flags, attached values, invalid pricing values, -E -I -h -x -- - -v, missing "
+                      "values, repeated -O) in 5 shapes (options first, file first, two files, no file, after --): exit code, first line, basis file = extracted IO/Esolver.esolver")
+    ck.cov["not_covered"] = ("IO/Esolver.v models option parsing, get_ftype, the first line and the exit code with the library calls as parameters (read result per format, basis load, "
+                             "solver return value and status, print_sol / write_basis return values): the theorems are about that model, its agreement with the program is checked on generated "
+                             "argument lists, not proved; -R and -m (resource limits) are parsed by the model but never exercised; -P only with 64..256")
     ck.assumptions = ["reference simplex untrusted (certificates re-checked)", "Coq kernel; extraction; OCaml", "harness h_io.c for the internal form of each file"]
     cleanup_scratch()
     ck.finish(trusted_base=["coqc 8.16.1 kernel", "OCaml extraction", "harness/h_io.c + checks/io_common.py + checks/C19.py"])
